@@ -90,6 +90,9 @@ Ltac rw_in_hyps :=
          | E : ?x = [], K : context [?x] |- _ => lazymatch K with E => fail | _ => rewrite E in K end
          | E : ?x = Some _, K : context [?x] |- _ => lazymatch K with E => fail | _ => rewrite E in K end
          | E : ?x = None, K : context [?x] |- _ => lazymatch K with E => fail | _ => rewrite E in K end
+         | E : ?x = [] |- context [?x] => rewrite E
+         | E : ?x = None |- context [?x] => rewrite E
+         | E : ?x = Some _ |- context [?x] => rewrite E
          end.
 
 Ltac in_norm :=
@@ -118,25 +121,28 @@ Section Progress.
     f_srv_peer : srv_peer s = true -> srv_open s = true;
     f_cli_loop : cli_loop s = false -> cli_open s = false /\ cli_router s = false;
     f_srv_loop : srv_loop s = false -> srv_open s = false /\ srv_router s = false;
-    f_lost : forall r, In r (lost s) -> fx = true -> cli_loop s = false
+    f_lost : forall r, In r (lost s) -> fx = true -> cli_loop s = false;
+    f_swept : swept s = true -> cli_loop s = false
   }.
 
   Lemma init_flag : FlagInv init.
   Proof. constructor; simpl; intros; try contradiction; try discriminate; auto. Qed.
 
-  Ltac flag_fin :=
-    norm_b; rw_in_hyps; in_norm;
-    repeat match goal with
-           | K : In _ (remove_nat _ _) |- _ => apply in_remove_nat in K
-           end;
-    intuition (subst; try congruence; auto).
-
   Lemma step_flag s l s' : step fx info s l = Some s' -> FlagInv s -> FlagInv s'.
   Proof.
-    intros H I.
-    destruct l; cbn [step] in H; unfold send_reply in H; break_step H; unf.
+    intros H I. destruct I as [P1 P2 P3 P4 P5 I1 I2 I3 I4 I5 I6 P6 I7].
+    destruct l; cbn [step] in H; unfold send_reply in H; break_step H; unf; norm_b; rw_in_hyps.
     all: constructor; unf.
-    all: try (intros r' Hin).
-    all: idtac.
-  Admitted.
+    all: try (intros r' Hin; specialize (P1 r'); specialize (P2 r'); specialize (P3 r'); specialize (P4 r');
+              specialize (P5 r'); specialize (P6 r');
+              try apply in_remove_nat in Hin;
+              repeat match goal with
+                     | E : ?x = [] |- _ => rewrite E in Hin
+                     end;
+              rewrite ?map_app, ?in_app_iff in Hin).
+    all: cbn [map fst In] in *.
+    all: try solve [intros; auto; congruence].
+    all: solve [intuition (subst; try congruence; auto)].
+  Qed.
+
 End Progress.
